@@ -14,20 +14,32 @@ Facts == ndJsonDeserialize("facts.ndjson")
 
 SeqToSet(q) == {q[j] : j \in 1 .. Len(q)}
 ProbeAt(pp, l) == LET S == {j \in 1 .. Len(Facts[pp].probes) : Facts[pp].probes[j].line = l} IN
-                  IF S = {} THEN [line |-> l, type |-> "?", labels |-> <<>>, alias |-> <<>>, query |-> FALSE]
+                  IF S = {} THEN [line |-> l, type |-> "?", labels |-> <<>>, alias |-> <<>>, query |-> FALSE,
+                                  iquery |-> FALSE, ilabels |-> <<>>]
                   ELSE Facts[pp].probes[CHOOSE j \in S : TRUE]
+
+\* indirect queries: probes of pointers to pointer-like variables (iquery, ilabels) and such parameters of user
+\* functions (Facts[p].iparams = <<[decl, idx, ilabels]>>).  A value without an indirect query is not judged.
+IProbeOK(pp, e) == ~ProbeAt(pp, e.a).iquery \/ e.c \in SeqToSet(ProbeAt(pp, e.a).ilabels)
+IParamsAt(pp, e) == {j \in 1 .. Len(Facts[pp].iparams) :
+                       Facts[pp].iparams[j].decl = Progs[pp].decl[e.s] /\ Facts[pp].iparams[j].idx = e.a}
+IParamOK(pp, e) == \A j \in IParamsAt(pp, e) : e.c \in SeqToSet(Facts[pp].iparams[j].ilabels)
 
 AllocOK(pp, e) == e.c \in SeqToSet(ProbeAt(pp, e.a).labels)
 AliasOK(pp, e) == ProbeAt(pp, e.a).type # ProbeAt(pp, e.b).type \/ e.b \in SeqToSet(ProbeAt(pp, e.a).alias)
 
 Sound == \A e \in ev : /\ e.e = "probe" => AllocOK(p, e)
                        /\ e.e = "alias" => AliasOK(p, e)
+                       /\ e.e = "iprobe" => IProbeOK(p, e)
+                       /\ e.e = "iparam" => IParamOK(p, e)
 
 Miss(r, what) == [p |-> r.p, what |-> what, a |-> r.ev.a, b |-> r.ev.b, c |-> r.ev.c, dec |-> r.dec, sched |-> r.sched]
 
 Misses ==
     {Miss(r, "alloc") : r \in {r \in Truth : r.ev.e = "probe" /\ ~AllocOK(r.p, r.ev)}}
     \cup {Miss(r, "alias") : r \in {r \in Truth : r.ev.e = "alias" /\ ~AliasOK(r.p, r.ev)}}
+    \cup {Miss(r, "ialloc") : r \in {r \in Truth : r.ev.e = "iprobe" /\ ~IProbeOK(r.p, r.ev)}}
+    \cup {Miss(r, "iparam") : r \in {r \in Truth : r.ev.e = "iparam" /\ ~IParamOK(r.p, r.ev)}}
 
 PostAlias ==
     /\ WriteTruth
